@@ -70,6 +70,16 @@ func runGraceful(w *World, rs *RunSpec) {
 		p := GenPlan(c, 100+i, GenOpts{MaxMsgs: 3, ByteBudget: 50000})
 		p.Tunnel = t.Idx
 		p.Role = "late"
+		// every RPC started after the shutdown is refused with Unavailable,
+		// whatever it names (by position, not by a draw)
+		switch i {
+		case 1:
+			p.Method = "/sim.Test/NoSuchMethod"
+		case 2:
+			p.Method = "/nosuch.Service/Method"
+		case 3:
+			p.Method = "no-slash-at-all"
+		}
 		if reverse && c.Intn(2, "latevia") == 1 {
 			p.Via = "pool"
 		}
